@@ -11,9 +11,11 @@ from vlib import refsim as R, refops, h_mol as M, strategies as S
 PROPERTY = "C14"
 RULE = ("(a) tapering: Hypothesis-generated molecules (vlib/h_mol: hydrogen systems and ions, HeH+, He2+, LiH, H2O, BeH2; generic "
         "3-D and exactly symmetric geometries; RHF/ROHF/UHF; frozen orbitals) x JW/BK/JKMN x both orderings; dense spectra of "
-        "the original and the tapered operator; non-trivial = >=2 symmetries found and >=1 qubit left. (b) trimming: circuits "
-        "assembled from idle qubits, single X/RX(odd pi)/Z/RZ, pairs of those, near-misses (RX(pi+1e-3), Y, RY(pi), S, H, "
-        "three gates) and entangled blocks, with random Pauli operators; oracle = reference statevector simulator; "
+        "the original and the tapered operator; on the first configuration the same QubitTapering object then tapers a second "
+        "operator a*H+b*I (same Pauli words, other coefficients) and H again; non-trivial = >=2 symmetries found and >=1 qubit "
+        "left. (b) trimming: circuits assembled from idle qubits, lone qubits with one, two or three gates drawn independently "
+        "from X,Y,Z,H,S,T,RX/RY/RZ/PHASE (generic angles, odd/even multiples of pi, 1e-3 off those; every ordered pair class "
+        "counted by label) and entangled blocks, with random Pauli operators; oracle = reference statevector simulator; "
         "non-trivial = >=1 trimmed and >=1 kept qubit and the operator touches both. (c) compression: real Pauli sums on "
         "1..6 qubits, random and coefficient-aligned (c*prod(I+-Z_i) plus large terms), epsilon placed around the cumulative-"
         "norm profile; oracle = sorted dense eigenvalues (Weyl pairing); non-trivial = >=1 term removed. Distinct = distinct "
@@ -82,13 +84,13 @@ def check_tapering(ctx, case):
               "frozen" if mcase["frozen"] not in (None, 0) else "no-frozen", "open-shell" if sp else "closed-shell"}
     fop = mol.fermionic_hamiltonian
     nontrivial = False
-    for mapping, utd in [tuple(c) for c in case["configs"]]:
+    for k_cfg, (mapping, utd) in enumerate(tuple(c) for c in case["configs"]):
         H = M.qubit_hamiltonian(mol, mapping, utd, fop)
         idle = sorted(set(range(n)) - {q for t in H.terms for q, _ in t})
         if idle:
             labels.add("idle-register-qubit")
         try:
-            nontrivial |= taper_one(ctx, H, mol, p, n, ne, sp, mapping, utd, labels)
+            nontrivial |= taper_one(ctx, H, mol, p, n, ne, sp, mapping, utd, labels, scale=case.get("scale") if k_cfg == 0 else None)
         except Fail as f:
             if idle or padded_register(case):
                 # one root cause: the padded UHF register holds spin-orbitals without any integral. Besides Z-type
@@ -100,7 +102,47 @@ def check_tapering(ctx, case):
     return nontrivial, labels
 
 
-def taper_one(ctx, H, mol, p, n, ne, sp, mapping, utd, labels):
+def _op_diff(a, b):
+    return max((abs(a.terms.get(k, 0) - b.terms.get(k, 0)) for k in set(a.terms) | set(b.terms)), default=0.0)
+
+
+def second_operator(tap, H, Ht, n, nt, ne, sp, mapping, utd, scale, tag, labels):
+    """History on ONE QubitTapering object: taper a second operator with the same Pauli words (same order) but other
+    coefficients, H2 = a*H + b*I, then the first one again. Judged as the first: spectrum inclusion in H2's spectrum,
+    equality with a fresh QubitTapering(H2).z2_tapered_op, inputs untouched; the repeated call must repeat its answer."""
+    from tangelo.toolboxes.operators import QubitOperator
+    from tangelo.toolboxes.operators.taper_qubits import QubitTapering
+    if not scale:
+        return
+    a, b = scale
+    H2 = QubitOperator()
+    H2.terms = {t: a * c + (b if t == () else 0.0) for t, c in H.terms.items()}      # same words, same order
+    if () not in H2.terms:
+        H2.terms[()] = b
+    terms2, terms1 = dict(H2.terms), dict(H.terms)
+    T2 = tap.z2_tapering(H2, n)
+    if dict(H2.terms) != terms2 or dict(H.terms) != terms1:
+        raise Fail(f"{tag}: z2_tapering modified an operator it was given", sig="taper:input-mutated")
+    spec2, _ = dense_spectrum(H2.terms, n)
+    spec_t2, herm2 = dense_spectrum(T2.terms, nt)
+    tol = TOL * max(1.0, abs(a))
+    far = [float(x) for x in spec_t2 if np.min(np.abs(spec2 - x)) > tol]
+    if far or herm2 > tol:
+        raise Fail(f"{tag}: second operator H2 = {a}*H + {b} tapered with the same QubitTapering object: {len(far)} of {len(spec_t2)} "
+                   f"eigenvalues are not eigenvalues of H2 (e.g. {far[0] if far else None}; non-Hermiticity {herm2:.1e})",
+                   sig="taper:second-operator-spectrum")
+    fresh = QubitTapering(H2, n, ne, sp, mapping, utd).z2_tapered_op.qubitoperator
+    if _op_diff(T2, fresh) > 1e-9 * max(1.0, abs(a), abs(b)):
+        raise Fail(f"{tag}: z2_tapering(H2) on a used QubitTapering object differs from a fresh QubitTapering(H2).z2_tapered_op "
+                   f"(max coefficient difference {_op_diff(T2, fresh):.3e})", sig="taper:second-operator-vs-fresh")
+    again = tap.z2_tapering(H, n)
+    if _op_diff(again, Ht) > 1e-9:
+        raise Fail(f"{tag}: z2_tapering(H) after tapering another operator no longer returns its first answer "
+                   f"(max coefficient difference {_op_diff(again, Ht):.3e})", sig="taper:repeat-call-differs")
+    labels.add("second-operator-same-support")
+
+
+def taper_one(ctx, H, mol, p, n, ne, sp, mapping, utd, labels, scale=None):
     from tangelo.toolboxes.operators.taper_qubits import QubitTapering
     from tangelo.toolboxes.operators import count_qubits
     from tangelo.toolboxes.qubit_mappings.statevector_mapping import get_reference_circuit
@@ -126,6 +168,7 @@ def taper_one(ctx, H, mol, p, n, ne, sp, mapping, utd, labels):
     keys = set(Ht.terms) | set(Ht2.terms)
     if max((abs(Ht.terms.get(k, 0) - Ht2.terms.get(k, 0)) for k in keys), default=0) > 1e-9:
         raise Fail(f"{tag}: z2_tapering(H) differs from z2_tapered_op", sig="taper:method-vs-attribute")
+    second_operator(tap, H, Ht, n, nt, ne, sp, mapping, utd, scale, tag, labels)
 
     # --- symmetry generators: commute with H, Z2 labels of the reference determinant
     words = kernel_words(tap.initial_op.kernel, n)
@@ -195,55 +238,115 @@ def taper_one(ctx, H, mol, p, n, ne, sp, mapping, utd, labels):
 
 @st.composite
 def taper_cases(draw, mols, max_qubits):
+    mag = st.floats(0.3, 2.5, allow_nan=False).map(lambda x: round(x, 3)).filter(lambda x: abs(x - 1) > 0.02)
     return {"mol": draw(mols), "max_qubits": max_qubits,
-            "configs": draw(st.lists(st.sampled_from(TAPER_CONFIGS), min_size=3, max_size=3, unique_by=tuple))}
+            "configs": draw(st.lists(st.sampled_from(TAPER_CONFIGS), min_size=3, max_size=3, unique_by=tuple)),
+            "scale": [draw(mag) * draw(st.sampled_from([1, 1, -1])), round(draw(st.floats(-1, 1, allow_nan=False)), 3)]}
 
 
-@part("tapering", quick=40, thorough=1200)
+@part("tapering", quick=32, thorough=1200)
 def tapering(ctx):
     mq = 8 if ctx.tier == "quick" else 10
     kept = 5 if ctx.tier == "quick" else 6
-    generic = M.molecules(max_qubits=mq, max_kept=kept, invalid=False, families=["H3", "H4-3d", "LiH", "BeH2", "H2O", "H4-ring"])
+    # the padded UHF register (open finding IDLE_SIG) has its own small search below; the main searches stay outside it by
+    # construction, so that no budget is spent shrinking a known failure
+    not_padded = lambda m: not padded_register({"mol": m})
+    generic = M.molecules(max_qubits=mq, max_kept=kept, invalid=False,
+                          families=["H3", "H4-3d", "HeH", "LiH", "BeH2", "H2O", "H4-ring"]).filter(not_padded)
     symmetric = M.molecules(max_qubits=mq, max_kept=kept, invalid=False, exact_symmetry=True,
-                            families=["H2", "H4-chain", "H4-ring", "LiH", "H2O", "BeH2"])
-    sc = 40 if ctx.tier == "quick" else 200
+                            families=["H2", "H4-chain", "H4-ring", "LiH", "H2O", "BeH2"]).filter(not_padded)
+    sc = 20 if ctx.tier == "quick" else 200
     ex = {IDLE_SIG: padded_register}
-    ctx.search("generic", taper_cases(generic, mq), lambda c: check_tapering(ctx, c), frac=0.55, shrink_calls=sc, exclusions=ex)
-    ctx.search("symmetric", taper_cases(symmetric, mq), lambda c: check_tapering(ctx, c), frac=0.45, shrink_calls=sc, exclusions=ex)
+    ctx.search("generic", taper_cases(generic, mq), lambda c: check_tapering(ctx, c), frac=0.5, shrink_calls=sc, exclusions=ex)
+    ctx.search("symmetric", taper_cases(symmetric, mq), lambda c: check_tapering(ctx, c), frac=0.4, shrink_calls=sc, exclusions=ex)
+    padded = M.molecules(max_qubits=8, max_kept=4, invalid=False, refs=("uhf",), bases=("sto-3g",),
+                         families=["H2", "H3", "H4-chain", "H4-3d"]).filter(lambda m: padded_register({"mol": m}))
+    ctx.search("padded", taper_cases(padded, 8), lambda c: check_tapering(ctx, c), frac=0.1,
+               shrink_calls=6 if ctx.tier == "quick" else 60)
 
 
 # ====================================================================================================== (b) trimming
 
-FLIPS = [{"n": "X", "p": None}] + [{"n": "RX", "p": (2 * k + 1) * pi} for k in (-2, -1, 0, 1, 2)]
-NEAR = [{"n": "RX", "p": pi + 1e-3}, {"n": "RX", "p": 0.7}, {"n": "RX", "p": 2 * pi}, {"n": "Y", "p": None}, {"n": "RY", "p": pi},
-        {"n": "S", "p": None}, {"n": "H", "p": None}, {"n": "T", "p": None}, {"n": "PHASE", "p": 0.4}, {"n": "RY", "p": 0.3}]
+def _near_odd_pi(theta):
+    """Distance of theta from the closest odd multiple of pi."""
+    return abs((theta % (2 * pi)) - pi)
 
 
 @st.composite
-def _phase(draw):
-    return draw(st.sampled_from([{"n": "Z", "p": None}, {"n": "RZ", "p": round(draw(st.floats(-7, 7, allow_nan=False)), 4)}]))
+def _angle(draw):
+    """Generic angles, exact multiples of pi (odd and even), and angles 1e-3 away from those.  Angles closer than 5e-4
+    to an odd multiple of pi without being one (to rounding) are not generated: Tangelo documents a 1e-5 tolerance for
+    'bit flip' rotations, inside which <X>/<Y> legitimately change by O(tolerance)."""
+    kind = draw(st.integers(0, 3))
+    if kind == 0:
+        th = round(draw(st.floats(-7, 7, allow_nan=False)), 4)
+        if 1e-12 < _near_odd_pi(th) < 5e-4:
+            th += 0.01
+        return th
+    k = draw(st.integers(-4, 4))
+    if kind in (1, 2):
+        return k * pi
+    return k * pi + draw(st.sampled_from([1e-3, -1e-3]))
+
+
+@st.composite
+def _sq_gate(draw):
+    """One single-qubit gate; the class (see gate_class) is drawn first so that every ordered pair of classes is reached."""
+    cls = draw(st.sampled_from(["F", "P", "F", "P", "E", "N", "R", "Yf", "Ry", "o"]))
+    odd = (2 * draw(st.integers(-2, 2)) + 1) * pi
+    if cls == "F":
+        return draw(st.sampled_from([{"n": "X", "p": None}, {"n": "RX", "p": odd}]))
+    if cls == "P":
+        return draw(st.sampled_from([{"n": "Z", "p": None}, {"n": "RZ", "p": draw(_angle())}]))
+    if cls == "E":
+        return {"n": "RX", "p": 2 * draw(st.integers(-2, 2)) * pi}
+    if cls == "N":
+        return {"n": "RX", "p": draw(st.integers(-4, 4)) * pi + draw(st.sampled_from([1e-3, -1e-3]))}
+    if cls == "R":
+        th = round(draw(st.floats(-7, 7, allow_nan=False)), 4)
+        if abs(th / pi - round(th / pi)) * pi < 5e-3:
+            th += 0.05
+        return {"n": "RX", "p": th}
+    if cls == "Yf":
+        return draw(st.sampled_from([{"n": "Y", "p": None}, {"n": "RY", "p": odd}]))
+    if cls == "Ry":
+        th = draw(_angle())
+        return {"n": "RY", "p": th + (0.05 if _near_odd_pi(th) < 1e-9 else 0.0)}
+    nm = draw(st.sampled_from(["H", "S", "T", "PHASE"]))
+    return {"n": nm, "p": draw(_angle()) if nm == "PHASE" else None}
+
+
+def gate_class(g):
+    """Class of a single-qubit gate for the reach labels: F = X-type flip (X, RX(odd pi)), P = Z-type phase (Z, RZ),
+    E = RX(even pi), N = RX within 1e-3 of a multiple of pi, R = RX generic, Yf = Y / RY(odd pi), Ry = other RY, o = H/S/T/PHASE."""
+    nm, p = g["n"], g["p"]
+    if nm == "X" or (nm == "RX" and _near_odd_pi(p) < 1e-9):
+        return "F"
+    if nm in ("Z", "RZ"):
+        return "P"
+    if nm == "RX":
+        m = abs(p / pi - round(p / pi)) * pi
+        return "E" if m < 1e-9 else "N" if m < 2e-3 else "R"
+    if nm == "Y" or (nm == "RY" and _near_odd_pi(p) < 1e-9):
+        return "Yf"
+    if nm == "RY":
+        return "Ry"
+    return "o"
 
 
 @st.composite
 def trim_cases(draw, max_width=6):
     n = draw(st.integers(1, max_width))
-    roles = [draw(st.sampled_from(["idle", "flip", "phase", "pair", "pair", "near", "three", "ent", "ent"])) for _ in range(n)]
+    roles = [draw(st.sampled_from(["idle", "one", "one", "pair", "pair", "pair", "three", "ent", "ent"])) for _ in range(n)]
     comps = []   # list of gate lists (each a queue kept in order)
-    one = st.one_of(st.sampled_from(FLIPS), _phase())
     ent = [q for q in range(n) if roles[q] == "ent"]
     for q, r in enumerate(roles):
-        if r == "flip":
-            g = [draw(st.sampled_from(FLIPS))]
-        elif r == "phase":
-            g = [draw(_phase())]
+        if r == "one":
+            g = [draw(_sq_gate())]
         elif r == "pair":
-            g = [draw(one), draw(one)]
-        elif r == "near":
-            g = [draw(st.sampled_from(NEAR))] + ([draw(one)] if draw(st.booleans()) else [])
-            if draw(st.booleans()):
-                g = g[::-1]
+            g = [draw(_sq_gate()), draw(_sq_gate())]        # both gates drawn independently from the full set
         elif r == "three":
-            g = [draw(one), draw(one), draw(one)]
+            g = [draw(_sq_gate()), draw(_sq_gate()), draw(_sq_gate())]
         elif r == "ent" and len(ent) < 2:
             g = [{"n": "H", "p": None}]
         else:
@@ -305,21 +408,47 @@ def check_trim(case):
     per_q = {q: [g for g in case["gates"] if q in g["t"] + (g["c"] or [])] for q in range(n)}
     touched = {q for t in terms for q, _ in t}
     for q in range(n):
-        names = [g["n"] for g in per_q[q]]
+        gl = per_q[q]
         tag = "trimmed" if q in trimmed_q else "kept"
-        if not names:
+        if not gl:
             labels.add(f"{tag}:idle")
-        elif all(len(g["t"]) == 1 and not g["c"] for g in per_q[q]):
-            shape = "".join("F" if x in ("X", "RX") else "P" if x in ("Z", "RZ") else "o" for x in names)
-            labels.add(f"{tag}:{shape if len(shape) <= 2 else 'three+'}" + (f"->|{states[q]}>" if q in trimmed_q else ""))
+        elif all(len(g["t"]) == 1 and not g["c"] for g in gl):
+            cls = [gate_class(g) for g in gl]
+            shape = {1: "one:", 2: "pair:"}.get(len(cls), "three+")
+            labels.add(f"{tag}:{shape}{','.join(cls) if len(cls) <= 2 else ''}" + (f"->|{states[q]}>" if q in trimmed_q else ""))
         else:
             labels.add(f"{tag}:entangled")
-    if any(g["n"] == "RX" and abs(abs(g["p"] - pi) - 1e-3) < 1e-9 for g in case["gates"]):
-        labels.add("near-miss-rx")
     if n_t == 0:
         labels.add("fully-trimmed")
     nontrivial = bool(trimmed_q and kept_q and (touched & trimmed_q) and (touched & kept_q))
     return nontrivial, labels
+
+
+CLASS_REPS = {"F": [{"n": "X", "p": None}, {"n": "RX", "p": -3 * pi}], "P": [{"n": "Z", "p": None}, {"n": "RZ", "p": 0.7}],
+              "E": [{"n": "RX", "p": 2 * pi}, {"n": "RX", "p": 0.0}], "N": [{"n": "RX", "p": pi + 1e-3}, {"n": "RX", "p": 2 * pi - 1e-3}],
+              "R": [{"n": "RX", "p": 0.3}, {"n": "RX", "p": pi / 2}], "Yf": [{"n": "Y", "p": None}, {"n": "RY", "p": pi}],
+              "Ry": [{"n": "RY", "p": 1.1}, {"n": "RY", "p": 2 * pi}], "o": [{"n": "H", "p": None}, {"n": "PHASE", "p": 0.4}]}
+
+
+def pair_sweep_cases():
+    """Every ordered pair of single-qubit gate classes (8 x 8, two representatives each) on a lone qubit 0, next to a
+    kept qubit 1 (H) and an idle qubit 2; fixed operator touching all of them."""
+    op = [[[[0, "Z"]], 1.0, 0.0], [[[0, "X"]], 0.7, 0.0], [[[0, "Y"]], -0.4, 0.0], [[[0, "Z"], [1, "X"]], 0.5, 0.0],
+          [[[0, "X"], [1, "X"], [2, "Z"]], 0.3, 0.0], [[[1, "Z"], [2, "Z"]], -0.2, 0.0], [[], 0.25, 0.0]]
+    out = []
+    for c0, r0 in CLASS_REPS.items():
+        for c1, r1 in CLASS_REPS.items():
+            for g0 in r0:
+                for g1 in r1:
+                    gates = [{"n": g0["n"], "t": [0], "c": None, "p": g0["p"]}, {"n": "H", "t": [1], "c": None, "p": None},
+                             {"n": g1["n"], "t": [0], "c": None, "p": g1["p"]}]
+                    out.append({"gates": gates, "nq": 3, "op": op})
+    return out
+
+
+@part("trimming_pairs", quick=256, thorough=256)
+def trimming_pairs(ctx):
+    ctx.sweep("pairs", pair_sweep_cases(), check_trim)
 
 
 @part("trimming", quick=400, thorough=20000)
